@@ -5,7 +5,11 @@ PID = 'C17'
 
 
 def items():
-    return list(verdicts.CONTRACTS) + list(verdicts.SCENARIOS)
+    # what the crypto check is given: the hashed octets of the subject as it is NOW (also when the same signature and subject objects
+    # come back after the subject changed): four of the hashdata scenarios (all of them: C01)
+    from contracts import hashdata
+    hd = [s for s in hashdata.scenarios() if any(t in s.cid for t in ('[BinaryDocument over doc]', '[Positive_Cert over uid]', '[Subkey_Binding over sub]', '[DirectlyOnKey over key]'))]
+    return list(verdicts.CONTRACTS) + list(verdicts.SCENARIOS) + hd
 
 
 def run(tier='quick', seed=0, only=None):
